@@ -7,6 +7,7 @@
 //     point, or a non-default environment choice, costs 1), complete for the bound it finishes;
 //   - happens-before state-key pruning: a state reached again with no more budget left than at an earlier
 //     visit is not expanded again.
+//
 // Work is sharded over worker processes (vsched has global state) by top-level branch.
 package sched
 
@@ -35,6 +36,9 @@ type Scenario struct {
 	MaxSteps int
 	// Record: journal every storage operation of the execution (vos.Journal) for crash-image enumeration
 	Record bool
+	// Desc: iterate maps in descending key order (the rewriter makes map iteration canonical; running a scenario
+	// in both orders shows that the verdict does not depend on one particular order)
+	Desc bool
 }
 
 type Viol struct {
@@ -44,9 +48,25 @@ type Viol struct {
 }
 
 var cur []Viol // violations reported by the running execution
+var curMu sync.Mutex
 
 // Report records an oracle breach of the current execution (may be called from any thread).
-func Report(sig, detail string) { cur = append(cur, Viol{Sig: sig, Detail: detail}) }
+func Report(sig, detail string) {
+	curMu.Lock()
+	cur = append(cur, Viol{Sig: sig, Detail: detail})
+	curMu.Unlock()
+}
+
+var hmu sync.Mutex
+
+// Shared runs f under a process-wide harness mutex: harness code that updates state shared between workload
+// threads uses it so that the free-running race-detector pass does not report (or crash on) the harness itself.
+// f must not contain synchronisation operations of the code under test.
+func Shared(f func()) {
+	hmu.Lock()
+	f()
+	hmu.Unlock()
+}
 
 type Stats struct {
 	Scenario   string         `json:"scenario"`
@@ -99,6 +119,7 @@ func runOnce(sc Scenario, dir string, prefix []int, onPoint func(e *vsched.Exec,
 	os.RemoveAll(dir)
 	os.MkdirAll(dir, 0755)
 	vos.Reset(sc.Record)
+	vsched.Descending = sc.Desc
 	cur = nil
 	var obs string
 	e := vsched.Run(prefix, vsched.Options{MaxSteps: sc.MaxSteps, OnPoint: onPoint, KeepTrace: trace}, func() { obs = sc.Body(dir) })
@@ -346,6 +367,7 @@ type Job struct {
 }
 
 var (
+	flagRace   = flag.Int("racepass", 0, "internal: run every scenario body N times free-running (binary built with -race)")
 	flagWorker = flag.String("worker", "", "internal: shard i/n")
 	flagJob    = flag.String("job", "", "internal: scenario:bound:deadline-unix")
 )
@@ -355,7 +377,7 @@ func IsWorker() bool {
 	if !flag.Parsed() {
 		flag.Parse()
 	}
-	return *flagWorker != ""
+	return *flagWorker != "" || *flagRace > 0
 }
 
 type replayFile struct {
@@ -382,6 +404,26 @@ func Run(c *lib.Check, scenarios []Scenario, jobs []Job) bool {
 		fmt.Fprintf(os.Stderr, "unknown scenario %q\n", name)
 		os.Exit(2)
 		return Scenario{}
+	}
+	if *flagRace > 0 {
+		// free-running pass: the shims fall through to the real primitives (vsched inactive); the race detector
+		// of a -race build reports unsynchronised accesses, which the cooperative scheduler cannot see
+		for _, sc := range scenarios {
+			for i := 0; i < *flagRace; i++ {
+				dir := fmt.Sprintf("%s/race", scratchBase())
+				os.RemoveAll(dir)
+				os.MkdirAll(dir, 0755)
+				vos.Reset(false)
+				curMu.Lock()
+				cur = nil
+				curMu.Unlock()
+				sc.Body(dir)
+				vos.CloseAll()
+			}
+			fmt.Fprintf(os.Stderr, "racepass scenario=%s runs=%d\n", sc.Name, *flagRace)
+		}
+		os.RemoveAll(scratchBase())
+		os.Exit(0)
 	}
 	if *flagWorker == "selfcheck" {
 		// determinism self-check of one scenario in a fresh process (the parent may have run free-mode phases whose
@@ -528,6 +570,12 @@ func Run(c *lib.Check, scenarios []Scenario, jobs []Job) bool {
 		fmt.Printf("  %s bound=%d execs=%d pruned=%d states=%d outcomes=%d complete=%v\n", j.Scenario, j.Bound, tot.Execs, tot.Pruned, tot.States, len(tot.Outcomes), tot.Complete)
 		if len(summaries) <= 4 {
 			c.Sample(map[string]any{"scenario": j.Scenario, "bound": j.Bound, "some_outcomes": outs})
+		}
+	}
+	if bs, err := os.ReadFile(fmt.Sprintf("%s/.overlay/%s/race.json", lib.VerifDir, strings.ToLower(c.ID))); err == nil {
+		var rp map[string]any
+		if json.Unmarshal(bs, &rp) == nil {
+			c.Set("race_pass", rp)
 		}
 	}
 	c.Set(jobsKey, summaries)
